@@ -499,19 +499,19 @@ func specGfpow(t T, p int) T {
 //@   use rowsApart(src, dest, m.columns)
 
 // Lockstep of the two operands of the row reduction: every row operation on m is followed by
-// the same operation, with the same arguments, on n (call-site obligations; a missing call
-// site is a failed obligation).
+// the same operation, with the same arguments (prevK = K-th argument of the call just before), on n
+// (call-site obligations that do not name any local variable; a missing call site is a failed obligation).
 //@ func (Matrix).rowReduceForInverse
 //@   props C11 C07
 //@   opaque
-//@   assert-call swapRows #0 : sameSlice(arg0.elements, m.elements) && arg1 == i && arg2 == j
-//@   assert-call swapRows #1 : sameSlice(arg0.elements, n.elements) && arg0.rows == n.rows && arg0.columns == n.columns && arg1 == i && arg2 == j
-//@   assert-call scaleRow #0 : sameSlice(arg0.elements, m.elements) && arg1 == i && arg2 == pivotInv
-//@   assert-call scaleRow #1 : sameSlice(arg0.elements, n.elements) && arg0.rows == n.rows && arg0.columns == n.columns && arg1 == i && arg2 == pivotInv
-//@   assert-call addScaledRow #0 : sameSlice(arg0.elements, m.elements) && arg1 == j && arg2 == i && arg3 == t
-//@   assert-call addScaledRow #1 : sameSlice(arg0.elements, n.elements) && arg0.rows == n.rows && arg0.columns == n.columns && arg1 == j && arg2 == i && arg3 == t
-//@   assert-call addScaledRow #2 : sameSlice(arg0.elements, m.elements) && arg1 == j && arg2 == i && arg3 == t
-//@   assert-call addScaledRow #3 : sameSlice(arg0.elements, n.elements) && arg0.rows == n.rows && arg0.columns == n.columns && arg1 == j && arg2 == i && arg3 == t
+//@   assert-call swapRows #0 : sameSlice(arg0.elements, m.elements)
+//@   assert-call swapRows #1 : sameSlice(arg0.elements, n.elements) && arg0.rows == n.rows && arg0.columns == n.columns && arg1 == prev1 && arg2 == prev2
+//@   assert-call scaleRow #0 : sameSlice(arg0.elements, m.elements)
+//@   assert-call scaleRow #1 : sameSlice(arg0.elements, n.elements) && arg0.rows == n.rows && arg0.columns == n.columns && arg1 == prev1 && arg2 == prev2
+//@   assert-call addScaledRow #0 : sameSlice(arg0.elements, m.elements)
+//@   assert-call addScaledRow #1 : sameSlice(arg0.elements, n.elements) && arg0.rows == n.rows && arg0.columns == n.columns && arg1 == prev1 && arg2 == prev2 && arg3 == prev3
+//@   assert-call addScaledRow #2 : sameSlice(arg0.elements, m.elements)
+//@   assert-call addScaledRow #3 : sameSlice(arg0.elements, n.elements) && arg0.rows == n.rows && arg0.columns == n.columns && arg1 == prev1 && arg2 == prev2 && arg3 == prev3
 //@   requires matOK(m) && matOK(n) && m.rows == m.columns && n.rows == m.rows && disjoint(m.elements, n.elements)
 //@   modifies m.elements[:] ; n.elements[:]
 //@   loop 0
